@@ -48,7 +48,7 @@ pub fn case_strategy() -> BoxedStrategy<Case> {
             let mut prefixes: Vec<Bits> = (0..n).map(|i| Bits::from_seed(seed.wrapping_add(i as u64) | 2, level + 1)).collect();
             prefixes.sort_by(|a, b| a.bools().cmp(&b.bools()));
             prefixes.dedup();
-            VdafSel::Poplar1 { bits, param: AggParamSpec { level, prefixes } }
+            VdafSel::Poplar1 { bits, param: AggParamSpec { level, prefixes, heads: vec![] } }
         }),
         1 => (1usize..=12).prop_map(|len| VdafSel::Prio2 { len }),
     ];
